@@ -25,7 +25,7 @@ RULE = ('Hypothesis draws a small backend configuration (1-2 pols, 8/4 bit, sing
 ASSUMPTIONS = ['padding is header-relative as the property states', 'empty strings, quotes and keys longer than 8 characters are not valid cards and not generated',
                'float cards are compared after float()', 'listing order is injected by replacing glob in raw_utils inside the harness process']
 REQUIRED_CLASSES = ['hdrmod=0', 'hdrmod=1', 'hdrmod=31', 'directio=absent', 'directio=0', 'directio=1', 'template',
-                    'notemplate', 'files=1', 'files>1', 'last_partial', 'listing_unsorted', 'bogus_owned', 'array', 'single']
+                    'notemplate', 'files=1', 'files>1', 'last_partial', 'listing_unsorted', 'bogus_owned', 'array', 'single', 'user_pktstart', 'second_recording_same_backend', 'key_starts_with_END']
 
 OWNED = ['NBITS', 'NPOL', 'OBSNCHAN', 'NANTS', 'BLOCSIZE', 'TBIN', 'CHAN_BW', 'OBSBW', 'OBSFREQ', 'SCANLEN']
 RESERVED = set(OWNED) | {'END', 'PKTIDX', 'PKTSTART', 'PKTSTOP', 'DIRECTIO', 'TELESCOP', 'OBSERVER', 'SRC_NAME'}
@@ -62,9 +62,15 @@ def strategy_(draw, tier):
     keys = draw(st.lists(st.text(alphabet=KEYCHARS, min_size=1, max_size=8).filter(lambda k: k not in RESERVED),
                          min_size=n_user, max_size=n_user, unique=True))
     cards = [[k] + draw(value) for k in keys]
+    # keys that merely begin with the letters END are ordinary cards
+    for k in draw(st.lists(st.sampled_from(['ENDFREQ', 'ENDMJD', 'END_X', 'ENDX', 'END1']), max_size=2, unique=True)):
+        if k not in keys:
+            cards.insert(draw(st.integers(0, len(cards))), [k] + draw(value))
     bogus = draw(st.lists(st.sampled_from(OWNED), max_size=4, unique=True))
     return dict(c=c, template=template, directio=directio, cards=cards, bogus=bogus,
                 pktidx=draw(st.sampled_from([None, None, 0, 1000, 123456])),
+                pktstart=draw(st.sampled_from([None, None, None, 0, 3, 999])),
+                again=draw(st.sampled_from([None, 1, 2, 3, 5, 7])),
                 target_mod=draw(st.sampled_from([None, None, 0, 1, 31, 16])),
                 perm_seed=draw(st.integers(0, 10 ** 6)))
 
@@ -96,12 +102,17 @@ def run_case(case, ctx):
     for k, typ, v in case['cards']:
         if k in tkeys:
             continue
+        if k.startswith('END'):
+            obs.cls('key_starts_with_END')
         hd[k] = v
         user[k] = (typ, v)
     if case['directio'] != 'absent':
         hd['DIRECTIO'] = case['directio']
     if case['pktidx'] is not None:
         hd['PKTIDX'] = case['pktidx']
+        if case.get('pktstart') is not None:
+            hd['PKTSTART'] = case['pktstart']        # any start <= the first index; need not lie on the block grid
+            obs.cls('user_pktstart')
     for k in case['bogus']:
         hd[k] = {'TBIN': 1.0, 'CHAN_BW': 99.5, 'OBSBW': -1.25, 'OBSFREQ': 1.0, 'SCANLEN': 12345.0}.get(k, 7)
     if case['bogus']:
@@ -160,6 +171,7 @@ def run_case(case, ctx):
             return obs
     allb = [b for blocks in per_file for b in blocks]
     p0 = case['pktidx'] or 0
+    pstart = case['pktstart'] if (case['pktidx'] is not None and case.get('pktstart') is not None) else p0
     exp = expected_owned(c, sz)
     for j, b in enumerate(allb):
         h = b['header']
@@ -178,8 +190,8 @@ def run_case(case, ctx):
             if int(h['PKTIDX']) != p0 + j * sz['spb']:
                 obs.fail('pktidx_step', f'block {j}: PKTIDX {h["PKTIDX"]} expected {p0 + j * sz["spb"]}')
                 break
-            if int(h['PKTSTART']) != p0 or int(h['PKTSTOP']) != p0 + c['nblocks'] * sz['spb']:
-                obs.fail('pktstart_pktstop', f'{h["PKTSTART"]} {h["PKTSTOP"]} vs {p0} {p0 + c["nblocks"] * sz["spb"]}')
+            if int(h['PKTSTART']) != pstart or int(h['PKTSTOP']) != pstart + c['nblocks'] * sz['spb']:
+                obs.fail('pktstart_pktstop', f'{h["PKTSTART"]} {h["PKTSTOP"]} vs {pstart} {pstart + c["nblocks"] * sz["spb"]}')
                 break
         except (KeyError, ValueError) as e:
             obs.fail('pkt_cards_missing', repr(e))
@@ -196,7 +208,8 @@ def run_case(case, ctx):
             except ValueError:
                 obs.fail(f'owned_unparseable:{key}', h[key])
                 continue
-            tol = 1e-12 * abs(val) if key in ('TBIN', 'SCANLEN', 'CHAN_BW', 'OBSBW', 'OBSFREQ') else 0
+            # floats are written with their full repr (TBIN with 15 significant digits): a few ulps of evaluation order
+            tol = (1e-14 * abs(val) if key == 'TBIN' else 16 * gen.ulp(val)) if key in ('TBIN', 'SCANLEN', 'CHAN_BW', 'OBSBW', 'OBSFREQ') else 0
             if abs(got - val) > tol:
                 obs.fail(f'owned_value:{key}', f'block {j}: {h[key]!r} vs {val!r}' + (' (user supplied a bogus value)' if key in case['bogus'] else ''))
         # user cards preserved
@@ -278,4 +291,29 @@ def run_case(case, ctx):
         if abs(rp['chan_bw'] - chan_bw) > 1e-9 * abs(chan_bw) or abs(rp['fch1'] - c['fch1']) > 1e-9 * max(abs(c['fch1']), abs(chan_bw) * c['B']):
             obs.fail('get_raw_params:frequency', f'{rp["chan_bw"]} {rp["fch1"]} vs {chan_bw} {c["fch1"]}')
     obs.nontrivial = c['nblocks'] > 1 and (not case['template'] or len(user) > 0)
+    # ---- the same backend records again: framing of the second recording depends on its own arguments only ----
+    if case.get('again') and not obs.violations:
+        obs.cls('second_recording_same_backend')
+        n2 = case['again']
+        stem2 = ctx.path('rec2')
+        c2 = dict(c, nblocks=n2)
+        ok, _ = core.call(obs, 'record[second]', volt.record, be, stem2, c2, header_dict=dict(user_copy), load_template=case['template'])
+        if ok:
+            files2 = volt.raw_files(stem2)
+            want_files = -(-n2 // c['bpf'])
+            if len(files2) != want_files:
+                obs.fail('second_recording_file_count', f'{len(files2)} files for {n2} blocks at {c["bpf"]} per file (first recording had {c["nblocks"]} blocks)')
+            else:
+                try:
+                    cnt = [len(ref_guppi.parse_file(f)) for f in files2]
+                except ref_guppi.RawFormatError as e:
+                    obs.fail('second_recording_malformed', str(e)[-200:])
+                    cnt = None
+                if cnt is not None:
+                    want = [min(c['bpf'], n2 - k * c['bpf']) for k in range(want_files)]
+                    if cnt != want:
+                        obs.fail('second_recording_blocks_per_file', f'{cnt} vs {want}')
+                    b0 = ref_guppi.parse_file(files2[0])[0]['header']
+                    if int(b0['PKTIDX']) != p0 or int(b0['PKTSTOP']) - int(b0['PKTSTART']) != n2 * sz['spb']:
+                        obs.fail('second_recording_pkt', f'PKTIDX {b0["PKTIDX"]} PKTSTART {b0["PKTSTART"]} PKTSTOP {b0["PKTSTOP"]} (expected start {p0}, span {n2 * sz["spb"]})')
     return obs
